@@ -33,7 +33,8 @@ class Contract:
                  result="none", effects=None, exc_ensures=(), entry=None, assumed=False, note="", ghost=None,
                  canaries=(), covers=(), max_unroll=8, use=None, label="", ghost_params=None, split_cases=(),
                  replay=None, search=None, timeout=None, order=None, gen=None,
-                 ascii_strings=(), ascii_hints=(), steps=(), model=None, opaque=None, when=None, yield_grid=None, use_labels=None, cover_hints=(), local_views=None):
+                 ascii_strings=(), ascii_hints=(), steps=(), model=None, opaque=None, when=None, yield_grid=None, use_labels=None, cover_hints=(), local_views=None, yield_view=None):
+        self.yield_view = yield_view
         self.local_views = dict(local_views or {})
         self.cover_hints = _l(cover_hints)
         self.yield_grid = yield_grid
